@@ -1569,11 +1569,22 @@ pub fn lt_eq() -> impl Function {
         ))
 }
 
+/// Equality of two values as SQL sees it: an integer and a float are compared as numbers
+/// (number literals are parsed as floats, so `k = 2` compares an integer column with `2.0`)
+fn values_are_equal(a: &Value, b: &Value) -> bool {
+    match (a, b) {
+        (Value::Integer(i), Value::Float(f)) | (Value::Float(f), Value::Integer(i)) => {
+            (**i as f64) == **f
+        }
+        _ => a == b,
+    }
+}
+
 pub fn eq() -> impl Function {
     Pointwise::bivariate(
         (DataType::Any, DataType::Any),
         data_type::Boolean::default(),
-        |a, b| (a == b).into(),
+        |a, b| values_are_equal(&a, &b).into(),
     )
 }
 
@@ -1581,7 +1592,7 @@ pub fn not_eq() -> impl Function {
     Pointwise::bivariate(
         (DataType::Any, DataType::Any),
         data_type::Boolean::default(),
-        |a, b| (a != b).into(),
+        |a, b| (!values_are_equal(&a, &b)).into(),
     )
 }
 
